@@ -381,6 +381,10 @@ func (x *Ctx) Exec(c *rosmar.Collection, bucket *rosmar.Bucket, op *GenOp) (a Ar
 			})
 	case "DeleteWithXattrs":
 		err = c.DeleteWithXattrs(ctx, op.Key, op.Dels)
+	case "UpdateXattrDeleteBody":
+		for _, name := range sortedKeys(sets) { // exactly one xattr
+			casOut, err = c.UpdateXattrDeleteBody(ctx, op.Key, name, exp, cas, sets[name], mopts)
+		}
 	case "SetWithMeta", "DeleteWithMeta":
 		newCas := x.resolveNewCas(op)
 		a.NewCas = x.tr.C(newCas)
